@@ -6,6 +6,7 @@
 
 #include <sys/types.h>
 #include <sys/wait.h>
+#include <sys/mman.h>
 #include <unistd.h>
 #include <signal.h>
 
@@ -136,9 +137,13 @@ struct Report {
 // ---------------------------------------------------------------- plain (non isolated) driver
 using Handler = std::function<void(const json& c, Report& r)>;
 
+inline long& SampleEvery() { static long k = 1; return k; }
+inline bool Sampled(const std::string& line) { return SampleEvery() <= 1 || Report::Hash(line) % static_cast<uint64_t>(SampleEvery()) == 0; }
+
 inline int RunStream(std::istream& in, const Handler& h, Report& rep) {
   std::string line; json c;
   while (std::getline(in, line)) {
+    if (line.rfind("<<\"CASE\"", 0) == 0 && !Sampled(line)) continue;
     if (!ParseCaseLine(line, c)) { Other(line); continue; }
     ++rep.cases;
     h(c, rep);
@@ -216,13 +221,20 @@ inline bool RunChild(const std::vector<json>& cases, size_t from, size_t to, con
 } // namespace detail
 
 namespace detail {
-struct Running { pid_t pid; std::string path; std::vector<json> batch; };
-inline pid_t SpawnChild(const std::vector<json>& cases, const Handler& h, unsigned wd, size_t keepSamples, const std::string& path) {
+// Each child publishes the index of the case it is about to execute in a shared word, so that when it dies the
+// faulting input is known at once (no bisection): the rest of the batch is simply re-run around it.
+struct Running { pid_t pid; std::string path; std::vector<json> batch; size_t from; size_t to; volatile long* progress; };
+inline volatile long* NewProgress() {
+  void* p = mmap(nullptr, sizeof(long), PROT_READ | PROT_WRITE, MAP_SHARED | MAP_ANONYMOUS, -1, 0);
+  auto* q = static_cast<volatile long*>(p); *q = -1; return q;
+}
+inline pid_t SpawnRange(const std::vector<json>& cases, size_t from, size_t to, const Handler& h, unsigned wd, size_t keepSamples,
+                        const std::string& path, volatile long* progress) {
   pid_t pid = fork();
   if (pid == 0) {
     std::set_terminate(TerminateHandler);
     Report r; r.keepSamples = keepSamples;
-    for (const auto& c : cases) { alarm(wd); ++r.cases; h(c, r); }
+    for (size_t i = from; i < to; ++i) { *progress = static_cast<long>(i); alarm(wd); ++r.cases; h(cases[i], r); }
     alarm(0);
     json j = r.ToJson();
     j["distinct_keys"] = json::array();
@@ -241,25 +253,15 @@ inline std::string DescribeStatus(int st, unsigned wd) {
 }
 } // namespace detail
 
-// Batches run in up to `jobs` forked children at a time; a batch whose child dies is bisected (synchronously) so that
-// each faulting input is identified and becomes a violation witness.
+// Batches run in up to `jobs` forked children at a time.  A child that dies names the faulting case through its
+// progress word; that case becomes a violation witness and the cases around it are re-run.
 inline int RunIsolated(std::istream& in, const Handler& h, Report& rep, const IsoOptions& opt = {}) {
-  const size_t jobs = std::max<size_t>(1, static_cast<size_t>(std::atoi(std::getenv("VERIF_JOBS") ? std::getenv("VERIF_JOBS") : "8")));
+  const size_t jobs = std::max<size_t>(1, static_cast<size_t>(std::atoi(std::getenv("VERIF_JOBS") ? std::getenv("VERIF_JOBS") : "12")));
   std::vector<detail::Running> running;
-  auto bisectBatch = [&](const std::vector<json>& batch, std::string why) {
-    std::function<void(size_t, size_t)> bisect = [&](size_t from, size_t to) {
-      if (to - from == 1) {
-        ++rep.cases;
-        std::string prop = opt.faultPropertyOf ? opt.faultPropertyOf(batch[from]) : opt.faultProperty;
-        rep.Violation(prop, "fault", batch[from], { {"fault", why} });
-        return;
-      }
-      const size_t mid = from + (to - from) / 2;
-      std::string w;
-      if (!detail::RunChild(batch, from, mid, h, opt.watchdogSeconds, rep, w)) { why = w; bisect(from, mid); }
-      if (!detail::RunChild(batch, mid, to, h, opt.watchdogSeconds, rep, w)) { why = w; bisect(mid, to); }
-    };
-    bisect(0, batch.size());
+  auto spawn = [&](std::vector<json> batch, size_t from, size_t to) {
+    detail::Running r; r.path = detail::TmpPath("rep"); r.batch = std::move(batch); r.from = from; r.to = to; r.progress = detail::NewProgress();
+    r.pid = detail::SpawnRange(r.batch, from, to, h, opt.watchdogSeconds, rep.keepSamples, r.path, r.progress);
+    running.push_back(std::move(r));
   };
   auto reapOne = [&]() {
     int st = 0; pid_t pid;
@@ -270,7 +272,17 @@ inline int RunIsolated(std::istream& in, const Handler& h, Report& rep, const Is
       bool ok = WIFEXITED(st) && WEXITSTATUS(st) == 0;
       if (ok) { std::ifstream f(done.path); json j; try { f >> j; rep.Merge(j); } catch (...) { ok = false; } }
       std::remove(done.path.c_str());
-      if (!ok) bisectBatch(done.batch, detail::DescribeStatus(st, opt.watchdogSeconds));
+      const long at = *done.progress;
+      munmap(const_cast<long*>(done.progress), sizeof(long));
+      if (!ok) {
+        const size_t k = (at >= static_cast<long>(done.from) && at < static_cast<long>(done.to)) ? static_cast<size_t>(at) : done.from;
+        ++rep.cases;
+        const std::string prop = opt.faultPropertyOf ? opt.faultPropertyOf(done.batch[k]) : opt.faultProperty;
+        rep.Violation(prop, "fault", done.batch[k], { {"fault", detail::DescribeStatus(st, opt.watchdogSeconds)} });
+        if (std::getenv("VERIF_VERBOSE")) std::cerr << "FAULT " << detail::DescribeStatus(st, opt.watchdogSeconds) << " " << done.batch[k].dump().substr(0, 400) << std::endl;
+        if (k > done.from) spawn(done.batch, done.from, k);          // the cases before it (their results died with the child)
+        if (k + 1 < done.to) spawn(std::move(done.batch), k + 1, done.to);   // and the cases after it
+      }
       return;
     }
   };
@@ -278,13 +290,13 @@ inline int RunIsolated(std::istream& in, const Handler& h, Report& rep, const Is
   auto dispatch = [&]() {
     if (batch.empty()) return;
     while (running.size() >= jobs) reapOne();
-    detail::Running r; r.path = detail::TmpPath("rep"); r.batch = std::move(batch);
-    r.pid = detail::SpawnChild(r.batch, h, opt.watchdogSeconds, rep.keepSamples, r.path);
-    running.push_back(std::move(r));
+    const size_t n = batch.size();
+    spawn(std::move(batch), 0, n);
     batch.clear(); batch.reserve(opt.batch);
   };
   std::string line; json c;
   while (std::getline(in, line)) {
+    if (line.rfind("<<\"CASE\"", 0) == 0 && !Sampled(line)) continue;
     if (!ParseCaseLine(line, c)) { Other(line); continue; }
     batch.push_back(std::move(c));
     if (batch.size() >= opt.batch) dispatch();
@@ -346,6 +358,7 @@ inline int Main(int argc, char** argv, const Handler& h, bool isolated = false, 
   std::istream* in = &std::cin;
   if (args.has("in")) { fin.open(args.get("in")); in = &fin; }
   if (args.has("tlclog")) OtherSink().open(args.get("tlclog"));
+  if (args.has("sample")) SampleEvery() = args.num("sample", 1);
   if (args.has("batch")) iso.batch = static_cast<size_t>(args.num("batch", 2000));
   if (isolated && !args.has("no-isolate")) RunIsolated(*in, h, rep, iso); else RunStream(*in, h, rep);
   rep.Write(args.get("out"));
